@@ -568,6 +568,15 @@ def run_one(case, tally):
                     tally.notes["ws-frames-before-handshake-answer-excluded:" + case["source"]] += 1
                     tally.clause("racy-excluded")
                     return findings, obs_all
+    # ND: a WebSocket handshake pipelined behind a request still in progress, and the client's EOF arriving before the server gets to it:
+    # when the earlier response ends, "the EOF is read" and "the handshake is taken on and answered" are due in the same instant - which
+    # comes first (is the 101 still written?) is a scheduling matter, and each worker has its own fixed order
+    for o in obs_all:
+        eofs = [e[1] for e in o.trace.events if e[2] == "client" and e[3] == "eof"]
+        if eofs and any(e[4]["scope"].get("type") == "websocket" and e[1] > eofs[0] - 1e-9 for e in o.app_events(kind="start")):
+            tally.notes["ws-handshake-behind-client-eof-excluded:" + case["source"]] += 1
+            tally.clause("racy-excluded")
+            return findings, obs_all
     racy = [be for be in norms if any(n != norms[be][0] for n in norms[be][1:])]
     if racy:
         tally.notes["racy-excluded:" + case["source"]] += 1
